@@ -276,6 +276,15 @@ Definition bls_case (w N t : nat) (S : seq nat) (variant i : nat) : bool * bool 
   let mid := ((if variant == 1%N then 2 else 1) + 2 * w)%N in
   (t_bls_verify tpk mid agg', t_bls_verify tpk mid agg').
 
+(* (signer, share) pairs as handed to Verifier.AggregateSignatures: the k-th share was made by party makers[k] and is
+   combined under signers[k], in the given order (any order, duplicates and foreign makers included) *)
+Definition bls_pairs_case (w N t : nat) (signers makers : seq nat) : bool * bool :=
+  let g2 : TG := 2%:R in
+  let tpk := bls_sk N t (2 * w) 0 *: g2 in
+  let mid := (1 + 2 * w)%N in
+  let agg := bls_aggregate signers [seq bls_sign tH (bls_sk N t (2 * w) k) mid | k <- makers] in
+  (t_bls_verify tpk mid agg, t_bls_verify tpk mid agg).
+
 (* ---- cases as produced by checks/ps.py ---- *)
 Inductive pcase :=
 | KReq (L : nat) (pat pat2 : seq nat) (c : rcomp) (i : nat) (k : pertk) (v1 v2 : bool)
@@ -288,7 +297,8 @@ Inductive pcase :=
 | KCUnblind (N t L : nat) (pat : seq nat) (k : nat) (v : bool)
 | KCPok (N t L : nat) (pat : seq nat) (S : seq nat) (v : bool)
 | KCDkg (N t L : nat) (T : seq nat) (v : bool)
-| KBls (N t : nat) (S : seq nat) (variant i : nat) (v1 v2 : bool).
+| KBls (N t : nat) (S : seq nat) (variant i : nat) (v1 v2 : bool)
+| KBlsPairs (N t : nat) (signers makers : seq nat) (v1 v2 : bool).
 
 Definition worlds : seq nat := [:: 0; 1; 2]%N.
 (* accepted in all worlds? *)
@@ -309,6 +319,7 @@ Definition check (c : pcase) : bool :=
   | KCPok N t L pat sg v => all_w1 (fun w => complete_pok w N t L pat sg) == v
   | KCDkg N t L T v => all_w1 (fun w => complete_dkg_equal w N t L T) == v
   | KBls N t sg variant i v1 v2 => eqb2 (all_w (fun w => bls_case w N t sg variant i)) v1 v2
+  | KBlsPairs N t sg mk v1 v2 => eqb2 (all_w (fun w => bls_pairs_case w N t sg mk)) v1 v2
   end.
 
 Fixpoint mismatches_from (l : seq pcase) (i : nat) : seq nat :=
@@ -341,3 +352,10 @@ Lemma t_natF_inj (i j : nat) : (i <= 4)%N -> (j <= 4)%N -> i%:R = j%:R :> TF -> 
 Proof.
 case: i => [|[|[|[|[|i]]]]] //; case: j => [|[|[|[|[|j]]]]] // _ _ /eqP; by vm_compute.
 Qed.
+
+(* pairing the shares with the sorted signer list instead of the given one is a different (wrong) aggregation *)
+Lemma sorted_pairing_refuted :
+  bls_pairs_case 0 4 3 [:: 2%N; 3%N; 1%N] [:: 2%N; 3%N; 1%N] = (true, true) /\
+  bls_pairs_case 0 4 3 (sort leq [:: 2%N; 3%N; 1%N]) [:: 2%N; 3%N; 1%N] = (false, false) /\
+  bls_pairs_case 0 4 3 [:: 2%N; 3%N; 1%N] [:: 1%N; 2%N; 3%N] = (false, false).
+Proof. by vm_compute. Qed.
